@@ -32,7 +32,7 @@ func (c *Case) fasta(perm []int) []byte {
 		}
 		for k, v := range r.Attr {
 			if v.present() {
-				ann[c.Keys[k]] = v.goValue()
+				ann[c.Keys[k]] = v.jsonValue()
 			}
 		}
 		for k, p := range r.Pre {
